@@ -135,6 +135,68 @@ def shard_long(arg):
 FORMS = ["vars", "negated", "expr", "const", "list"]
 
 
+def grown_case(case, st):
+    """ONE Graph object serves several calls, add_edge in between (case['stages'] = increasing edge
+    counts); after each stage all edge subsets are decided against the graph as it is then"""
+    from cspuz import Solver, graph
+
+    n = case["n"]
+    edges = [tuple(e) for e in case["edges"]]
+    g = graph.Graph(n)
+    k = 0
+    for si, end in enumerate(case["stages"]):
+        for u, v in edges[k:end]:
+            g.add_edge(u, v)
+        k = end
+        if k == 0:
+            continue
+        cur = edges[:k]
+        s = Solver()
+        flags = s.bool_array(k)
+        try:
+            graph.active_edges_acyclic(s, flags, g)
+        except Exception as e:
+            st.fail(Failure("posting-raises|grown|" + repo_frame_sig(e), observed=str(e)[:150]), case, "c09.grown")
+            return
+        q = encq.Query(s)
+        ids = [v.id for v in flags]
+        for pat in graphref.patterns(k):
+            want = graphref.edges_acyclic(n, cur, pat)
+            got = q.admits(ids, pat)
+            nt = si >= 1 and sum(pat) >= 3
+            sub = dict(case, pattern=[int(x) for x in pat], stage=si)
+            st.case(nontrivial=nt, counted=True, classes=["grown", "grown-stage>=1" if si else "grown-stage0"],
+                    sample=sub if nt else None)
+            if got != want:
+                st.fail(Failure(("admits-cycle" if got else "rejects-forest") + "|grown", observed=got, expected=want),
+                        sub, "c09.grown")
+                return
+
+
+def shard_grown(arg):
+    seed, n_graphs = arg
+    st = Stats()
+    from hypothesis import strategies as hs
+
+    @hs.composite
+    def c(draw):
+        g = draw(multigraph_strategy(6, 8))
+        m = len(g["edges"])
+        cuts = sorted(set(draw(hs.lists(hs.integers(1, m), min_size=1, max_size=3))))
+        return dict(g, stages=[x for x in cuts if x < m] + [m])
+
+    def body(case):
+        st2 = Stats()
+        grown_case(case, st2)
+        st.merge_counts(st2)
+        if st2.failures:
+            sig, d = sorted(st2.failures.items())[0]
+            raise Failure(sig, observed=d["observed"], expected=d["expected"], detail=d["case"])
+
+    hyp_search(st, c(), body, seed=seed, max_examples=n_graphs, check="c09.grown")
+    return st
+
+
 def e2e_case(case):
     from cspuz import Solver, graph
 
@@ -261,7 +323,10 @@ def run(ctx):
         ctx.stats.merge(r)
     for r in pmap(shard_long, [(ctx.seed * 1000 + 70 + i, 12 if quick else 200) for i in range(8)]):
         ctx.stats.merge(r)
+    for r in pmap(shard_grown, [(ctx.seed * 1000 + 90 + i, 15 if quick else 150) for i in range(8 if quick else 16)]):
+        ctx.stats.merge(r)
     cl = ctx.stats.classes
+    ctx.floor("edge subsets on a Graph object that grew after an earlier use", cl["grown-stage>=1"], 1000)
     ctx.floor("long graphs: forests", cl["long:forest"], 25)
     ctx.floor("long graphs: cyclic edge sets", cl["long:cyclic"], 5)
     ctx.floor("patterns on graphs with a parallel edge (share)",
@@ -278,6 +343,16 @@ def replay(ctx, rep):
         return
     if rep.get("check") == "c09.e2e":
         e2e_case(case)
+        return
+    if rep.get("check") == "c09.grown":
+        st = Stats()
+        c = dict(case)
+        c.pop("pattern", None)
+        c.pop("stage", None)
+        grown_case(c, st)
+        if st.failures:
+            sig, d = sorted(st.failures.items())[0]
+            raise Failure(sig, observed=d["observed"], expected=d["expected"])
         return
     st = Stats()
     c = dict(case)
